@@ -1,5 +1,7 @@
 package sim
 
+import "strings"
+
 // Decider turns scheduling choices into a recorded vector, or replays one.
 type Decider struct {
 	rng    *Rng
@@ -65,25 +67,47 @@ func indexOfLast(k *Kernel) int {
 }
 
 // choose picks an option index: 0..len(parked)-1 resumes that goroutine,
-// len(parked) (only when timeOK) lets simulated time advance.
+// len(parked) (only when timeOK) lets simulated time advance. Goroutines that
+// wait for a Go mutex held by a parked goroutine are only chosen when nothing
+// else can run (otherwise a strict-priority strategy would spin on them).
 func (s *Strategy) choose(r *Rng, k *Kernel, timeOK bool) int {
 	n := len(k.parked)
+	var elig []int
+	for i, g := range k.parked {
+		if g.cur != nil && strings.HasPrefix(g.cur.point, "mutex.") {
+			continue
+		}
+		elig = append(elig, i)
+	}
+	if len(elig) == 0 {
+		for i := range k.parked {
+			elig = append(elig, i)
+		}
+	}
+	isElig := func(i int) bool {
+		for _, e := range elig {
+			if e == i {
+				return true
+			}
+		}
+		return false
+	}
 	if r == nil {
 		// replay tail policy
-		if i := indexOfLast(k); i >= 0 {
+		if i := indexOfLast(k); i >= 0 && isElig(i) {
 			return i
 		}
-		return 0
+		return elig[0]
 	}
 	if timeOK && r.Bool(s.spec.PTime) {
 		return n
 	}
 	switch s.spec.Strategy {
 	case "sticky":
-		if i := indexOfLast(k); i >= 0 && r.Bool(s.spec.Sticky) {
+		if i := indexOfLast(k); i >= 0 && isElig(i) && r.Bool(s.spec.Sticky) {
 			return i
 		}
-		return r.Intn(n)
+		return elig[r.Intn(len(elig))]
 	case "pct":
 		step := int(k.step.Load())
 		for _, cp := range s.spec.PCTPoints {
@@ -92,9 +116,9 @@ func (s *Strategy) choose(r *Rng, k *Kernel, timeOK bool) int {
 				k.lastRun.prio = -s.pctHit
 			}
 		}
-		best := 0
-		for i, g := range k.parked {
-			if g.prio > k.parked[best].prio {
+		best := elig[0]
+		for _, i := range elig {
+			if k.parked[i].prio > k.parked[best].prio {
 				best = i
 			}
 		}
@@ -104,7 +128,8 @@ func (s *Strategy) choose(r *Rng, k *Kernel, timeOK bool) int {
 		// others cannot run or DelaySteps other steps were made
 		var cand []int
 		held := -1
-		for i, g := range k.parked {
+		for _, i := range elig {
+			g := k.parked[i]
 			if g.proc.idx == s.spec.DelayProc && g.cur != nil && g.cur.point == s.spec.DelayPoint && s.delayCnt < s.spec.DelaySteps {
 				held = i
 				continue
@@ -133,7 +158,7 @@ func (s *Strategy) choose(r *Rng, k *Kernel, timeOK bool) int {
 		}
 		return cand[r.Intn(len(cand))]
 	default:
-		return r.Intn(n)
+		return elig[r.Intn(len(elig))]
 	}
 }
 
